@@ -54,9 +54,15 @@ def _make_add_or_sub_func(docstring, series_op, float_op, series_rop):
             if np.isnan(other.initial_value):
                 data = None
             else:
-                data = self._data.copy()
-                if self._valid_values:
-                    data["value"] = series_op(data["value"], other.initial_value)
+                if np.isnan(self.initial_value):
+                    # first step change is absolute when undefined towards -inf
+                    data = pd.DataFrame(
+                        {"value": series_op(self._get_values(), other.initial_value)}
+                    )
+                else:
+                    data = self._data.copy()
+                    if self._valid_values:
+                        data["value"] = series_op(data["value"], other.initial_value)
             return sc.Stairs._new(
                 initial_value=float_op(self.initial_value, other.initial_value),
                 data=data,
@@ -66,11 +72,16 @@ def _make_add_or_sub_func(docstring, series_op, float_op, series_rop):
             if np.isnan(self.initial_value):
                 data = None
             else:
-                data = other._data.copy()
-                if other._valid_values:
-                    data["value"] = series_rop(data["value"], self.initial_value)
-                if other._valid_deltas:
-                    data["delta"] = series_rop(data["delta"], 0)
+                if np.isnan(other.initial_value):
+                    data = pd.DataFrame(
+                        {"value": series_rop(other._get_values(), self.initial_value)}
+                    )
+                else:
+                    data = other._data.copy()
+                    if other._valid_values:
+                        data["value"] = series_rop(data["value"], self.initial_value)
+                    if other._valid_deltas:
+                        data["delta"] = series_rop(data["delta"], 0)
             return sc.Stairs._new(
                 initial_value=float_op(self.initial_value, other.initial_value),
                 data=data,
